@@ -411,6 +411,24 @@ func (s *Spec) Check(e *Exec, t []string) {
 		if sr := s.results[sid]; sr != nil && sr.err == "ok" && r[1] != strconv.Itoa(len(sr.us)) {
 			s.fail(e, "C02", "len: got %s want %d", r[1], len(sr.us))
 		}
+	case "expects":
+		// Expects(n) / ExpectsZeroOrN(n): the value fails from now on exactly when the number of
+		// entries it denotes is not the expected one (C19: a failed value denotes nothing)
+		sid, _ := strconv.Atoi(t[1])
+		n, _ := strconv.Atoi(t[2])
+		if sr := s.results[sid]; sr != nil && sr.err == "ok" {
+			found := len(sr.us)
+			okExp := found == n || (t[3] == "1" && found == 0)
+			if okExp && r[0] != "ok" {
+				s.fail(e, "C02", "Expects(%d) on a search denoting %d objects: got %s", n, found, r[0])
+			}
+			if !okExp {
+				if r[0] != "unexpectedn" {
+					s.fail(e, "C19", "Expects(%d) on a search denoting %d objects: got %s, want the unexpected-number-of-results error", n, found, r[0])
+				}
+				sr.err = "unexpectedn"
+			}
+		}
 	case "collect", "one":
 		s.checkCollect(e, t, r)
 	case "sdel":
